@@ -248,6 +248,8 @@ def build(pid, P, R, tier, log_dir):
         obs.append(hook_select_ob(P, R, mp, log_dir, 2 if tier == "quick" else 3))
     if pid == "C16":
         obs.append(test_harness_ob(P, R, mp, log_dir))
+        obs.append(test_attr_ob(P, R, mp, log_dir))
+        obs.append(test_filter_ob(P, R, mp, log_dir))
         obs.append(run_tests_ob(P, R, mp, log_dir, 2 if tier == "quick" else 3))
     if pid == "C09":
         obs.append(check_formatted_ob(P, R, mp, log_dir))
@@ -832,7 +834,7 @@ def run_tests_ob(P, R, mp, log_dir, bound):
             val = mirx.show(o.value, ex, o.state)
             if val.startswith("Result::Ok(") == failed_any and all(rt and rt[0] == "eq" and rt[1] in (PASSED, FAILED) for _, rt in runs):
                 bad.append(f"exit status {val[:24]} although failed={failed_any} (runs {[(k, rs[rt[1]]) for k, rt in runs]})")
-        return result_of("X-run_tests", r, bad, n, len(outs), t0, None)
+        return result_of("X-run_tests", r, bad, n, len(outs), t0, lambda: testrun_native(log_dir))
     return mp.XOb("X-run_tests", statement, "", run)
 
 
@@ -1120,3 +1122,122 @@ def hook_native(log_dir):
             elif not want and "::from_" in body:
                 problems.append(f"[{prof}] {name}: construction goes through a hook although none qualifies: {body[:80]}")
     return bool(problems), "; ".join(problems[:4]) or f"{len(HOOK_PROGRAMS)} newtypes: the documented hook (or none) is the one used at the construction site"
+
+
+def test_attr_ob(P, R, mp, log_dir):
+    statement = ("IrEmitter::emit_function: the function the runner selected (test_function == Some(its name)) is emitted with `#[test]` on EVERY path - whatever its return "
+                 "type, parameters, visibility or async-ness - and no other function is")
+
+    def run():
+        import emit_props
+        t0 = time.time()
+        f = only_fn(P, "::emit_function")
+        ex = emit_props.atom_executor(P, R)
+        ex.model_sequences = True
+        ex.seq_bound = 1
+        ex.tolerate_unsupported = True
+        ex.summarize = [r"collect_mutated_params$", r"emit_visibility$", r"emit_type$", r"::emit_stmt$", r"escape_keyword$", r"RefCell", r"format_ident", r"Ident::new",
+                        r"PartialEq.*::eq$", r"as_deref$"]
+        selfv = ex.sym_value("IrEmitter", "self")
+        func = ex.sym_value("backend::ir::decl::IrFunction", "func")
+        outs = ex.run(f, [selfv, func])
+        td = R.resolve("IrEmitter")
+        names = [x[0] for x in td.variants[0][1]]
+        r = {"id": "X-test_attr", "engine": "E2-X mirsmt", "statement": statement,
+             "bound": "IrFunction symbolic (return type, flags; 0..=1 parameters and statements - they do not matter here); `self.test_function == Some(name)` an uninterpreted answer",
+             "functions_encoded": [n + " (MIR)" for n in ex.encoded]}
+        if "test_function" not in names:
+            return result_of("X-test_attr", r, ["IrEmitter has no test_function field: the emitter cannot know which function to mark"], 0, 0, t0, lambda: testrun_native(log_dir))
+        k = names.index("test_function")
+        prefetch(mp, ex, [o.pc for o in outs])
+        bad, n = [], 0
+        for o in outs:
+            if not feasible(mp, ex, o.pc):
+                continue
+            n += 1
+            if o.kind != "return":
+                bad.append(f"{o.kind}: {o.info}")
+                continue
+            if mirx.show(o.value, ex, o.state).startswith("Result::Err"):
+                continue            # emission of a body statement failed: nothing is emitted
+            toks = emit_props.tokens_of(ex, o) or []
+            has = any(toks[i:i + 4] == ["#", "[", "test", "]"] for i in range(len(toks)))
+            sel = next((e for e in o.state.events if e[0].endswith("::eq") and len(e[1]) == 2 and f"sym<self.{k}" in e[1][0] + e[1][1]), None)
+            chosen = None if sel is None else (True if sel[2] in o.pc else False if f"(not {sel[2]})" in o.pc else None)
+            tg = o.state.facts.get(f"self.{k}!tag")
+            if chosen is None and tg == ("eq", 0):
+                chosen = False          # no test function selected at all
+            if chosen is None:
+                bad.append("a path never asks whether this is the selected test function" + (" and marks it #[test]" if has else ""))
+            elif chosen != has:
+                bad.append(f"selected={chosen} but #[test] {'emitted' if has else 'missing'} (path {[p_ for p_ in o.pc if 'tag' in p_ or 'func.' in p_][:4]})")
+        return result_of("X-test_attr", r, bad, n, len(outs), t0, lambda: testrun_native(log_dir))
+    return mp.XOb("X-test_attr", statement, "", run)
+
+
+def test_filter_ob(P, R, mp, log_dir):
+    statement = ("`incan test` selection: a collected test is executed iff its name contains the -k keyword (when one is given) AND it is not marked @slow unless --slow is "
+                 "given - the two conditions are independent")
+
+    def run():
+        import itertools
+        t0 = time.time()
+        cands = [v for k, v in P.fns.items() if re.match(r"^run_tests::\{closure#\d+\}$", k.split("::", 0)[-1] if False else k) or re.search(r"(^|::)run_tests::\{closure#\d+\}$", k)]
+        sel = [f for f in cands if len(f.params) == 2 and "&TestInfo" in f.params[1][1].replace(" ", "") and "&&" not in f.params[1][1] and "bool" in (f.ret or "")]
+        if len(sel) != 1:
+            raise Inconclusive(f"the selection closure of run_tests was not found ({len(sel)} candidates)")
+        f = sel[0]
+        ex = slice_executor(P, R, 2, (r"str>::contains", r"\]>::contains", r"PartialEq"))
+        flt = ex.sym_value("std::option::Option<&str>", "filter")
+        slow = ex.enc.bool_var("include_slow")
+        # captured variables in the order of the closure's upvars (types tell which is which)
+        up = re.findall(r"&(?:'\w+ )?(std::option::Option<&str>|bool)", f.params[0][1])
+        env_order = []
+        ty0 = f.locals.get(f.params[0][0], f.params[0][1])
+        env = symex.Tup([flt, slow])
+        test = ex.sym_value("cli::test_runner::TestInfo", "t")
+        outs = ex.run(f, [env, test])
+        r = {"id": "X-test_filter", "engine": "E2-X mirsmt", "statement": statement,
+             "bound": "the selection closure of run_tests on a symbolic test; `name.contains(keyword)` and `markers.contains(Slow)` are uninterpreted answers; an answer "
+                      "the code never asked for is free",
+             "functions_encoded": [n + " (MIR)" for n in ex.encoded]}
+        prefetch(mp, ex, [o.pc for o in outs])
+        bad, n = [], 0
+        for o in outs:
+            if not feasible(mp, ex, o.pc):
+                continue
+            n += 1
+            if o.kind != "return":
+                bad.append(f"{o.kind}: {o.info}")
+                continue
+            v = ex.deref(o.value, o.state)
+            if not (isinstance(v, symex.Scalar) and v.term in ("true", "false")):
+                got = None
+                if isinstance(v, symex.Scalar):
+                    got = True if v.term in o.pc else False if f"(not {v.term})" in o.pc else None
+                if got is None:
+                    bad.append(f"verdict is not decided on the path: {getattr(v, 'term', v)}")
+                    continue
+            else:
+                got = v.term == "true"
+            ft = o.state.facts.get("filter!tag")
+            has_filter = None if not ft or ft[0] != "eq" else ft[1] == 1
+            def ans(pred):
+                e = next((e for e in o.state.events if pred(e)), None)
+                return None if e is None else (True if e[2] in o.pc else False if f"(not {e[2]})" in o.pc else None)
+            kw = ans(lambda e: e[0].endswith("contains") and "t.1" in e[1][0])           # function_name
+            sl = ans(lambda e: e[0].endswith("contains") and "t.2" in e[1][0])           # markers
+            inc = True if "include_slow" in o.pc else False if "(not include_slow)" in o.pc else None
+            frees = [x for x in (("hf", has_filter), ("kw", kw), ("sl", sl), ("inc", inc)) if x[1] is None]
+            wrong = None
+            for vals in itertools.product([True, False], repeat=len(frees)):
+                a = {"hf": has_filter, "kw": kw, "sl": sl, "inc": inc}
+                a.update({k: v_ for (k, _), v_ in zip(frees, vals)})
+                want = ((not a["hf"]) or a["kw"]) and (a["inc"] or not a["sl"])
+                if want != got:
+                    wrong = a
+                    break
+            if wrong:
+                bad.append(f"selected={got} although -k given={wrong['hf']}, name matches={wrong['kw']}, @slow={wrong['sl']}, --slow={wrong['inc']}")
+        return result_of("X-test_filter", r, bad, n, len(outs), t0, lambda: testrun_native(log_dir))
+    return mp.XOb("X-test_filter", statement, "", run)
